@@ -1062,14 +1062,14 @@ func concTree(id, round, files int) *Node {
 	mk := func(dirTag string) []*Entry {
 		es := []*Entry{}
 		for i := 0; i < files; i++ {
-			name := fmt.Sprintf("w%d_%s_file_%03d", id, dirTag, i)
-			es = append(es, &Entry{name, file(0o644, fmt.Sprintf("worker %d round %d %s", id, round, name))})
+			name := fmt.Sprintf("w%d%s%03d", id, dirTag, i) // short: the term that goes to the model side is large as it is
+			es = append(es, &Entry{name, file(0o644, fmt.Sprintf("%d.%s", round, name))})
 		}
 		return es
 	}
-	sub := append(mk("sub"), &Entry{"l", link(fmt.Sprintf("w%d_sub_file_000", id))})
+	sub := append(mk("s"), &Entry{"l", link(fmt.Sprintf("w%ds000", id))})
 	sortEntries(sub)
-	es := append(mk("top"), &Entry{"empty", dir()}, &Entry{"sub", dir(sub...)})
+	es := append(mk("t"), &Entry{"empty", dir()}, &Entry{"sub", dir(sub...)})
 	sortEntries(es)
 	return dir(es...)
 }
@@ -1128,8 +1128,8 @@ func (r *runner) concurrent(spec ConcSpec, emitRounds int) {
 		workers.Wait()
 		stop.Store(true)
 		walkers.Wait()
-		for _, p := range ps {
-			r.finish(p, "concurrent", round < emitRounds)
+		for id, p := range ps {
+			r.finish(p, "concurrent", round < emitRounds && id < 4) // the model side gets four of the first group (large terms)
 			p.cleanup()
 		}
 	}
